@@ -6,7 +6,12 @@ SPEC = {
     "rule": "gcd/reduce_fraction: all pairs in [0,300]^2 (or full width) per integer type + 2^k±1 boundary pairs + random; "
             "log2i: 2^k-1,2^k,2^k+1 for every k of every width, all 8/16-bit values, random; random_int: boundary spans; "
             "random_data: sizes crossing the 4096-byte refill inside canaries; Vector2/3 exhaustive over [-4,4]^n pairs, "
-            "Vector4 sampled; Matrix4 random small-int (exact) and strictly diagonally dominant double matrices. "
+            "Vector4 sampled + all pairs over {-1,0,1}^4; Matrix4 random small-int (exact) and strictly diagonally dominant double matrices; "
+            "round 5: structured matrices (every pair of 2^8 row/column structure masks x line kinds unit/diagonal/zero x fillings, "
+            "permuted, shared-structure pairs, named special shapes) under all product/transpose laws against an own exact triple loop, "
+            "in int64 and as power-of-two scaled double/float replicas; every dominant matrix (random and structured) also inverted "
+            "scaled by 2^s along a ladder -500..500 (dense at 44..70, 120..130, 140..155), with non-uniform row/column scalings, and as "
+            "Matrix4<float>; double vectors with components k*2^s (exact dot/cross/scalar forms). "
             "distinct_nontrivial = distinct (helper, type, operand-shape) classes observed, e.g. gcd:u16:coprime, log2i:u64:bit47.",
     "stages": [
         {"name": "c20", "variant": "asan", "shards": (16, 16)},
@@ -16,6 +21,10 @@ SPEC = {
     "required_classes": ["gcd:u64:*", "gcd:i8:*", "log2i:u64:bit63", "log2i:u8:bit7", "log2i:i16:bit14", "random_int:*",
                          "random_data:>8192", "v2:*", "v3:*", "v4:*", "matrix:int:*", "matrix:dominant:*", "log2i:ulonglong:bit63", "log2i:longlong:bit62",
                          "vector2d:float:eq:*", "vector4d:float:*", "matrix:dominant:style3", "matrix:dominant:style4",
-                         "random_data:signal-storm:32MiB"],
+                         "random_data:signal-storm:32MiB",
+                         "matrix:struct:masks:kinds0000", "matrix:struct:masks:kinds1111", "matrix:struct:masks:kinds2222",
+                         "matrix:struct:masks-permuted:*", "matrix:struct:shared", "matrix:struct:special",
+                         "matrix:dominant:structured:kind0:fill*", "matrix:dominant:structured:kind1:fill3",
+                         "matrix:dominant:float:*", "vector3d:scaled:*", "v4:enumerated:*"],
     "assumptions": ASSUME_COMMON + ["random_data 'every position rewritten' monitor has a 256^-8 per-position false-alarm probability"],
 }
